@@ -311,6 +311,26 @@ func (c *coord) triage(it foundItem, want Violation, capS float64) *Replay {
 			rep.AlsoSeen = append(rep.AlsoSeen, v)
 		}
 	}
+	if want.Class == "cross-process" && it.fv.Cross != nil {
+		// first as a property of the single run (literal script under several
+		// environments), then as a property of the batch
+		if v, _, err := c.reproduces(s, &want); err == nil && v != nil {
+			rep.Violation = *v
+			rep.Key = findingKey(c.prop, v)
+			rep.Minimised = sizeOf(s)
+			return rep
+		}
+		if v := c.crossReproduces(it.fv.Cross, &want); v != nil {
+			rep.Kind = "cross-process-batch"
+			rep.Cross = it.fv.Cross
+			rep.Violation = *v
+			rep.Key = findingKey(c.prop, v)
+			rep.Minimised = sizeOf(s)
+			return rep
+		}
+		rep.Infra = "a difference between two processes running the same runs did not show again"
+		return rep
+	}
 	sh := &shrinker{c: c, want: want, deadline: time.Now().Add(time.Duration(capS * float64(time.Second)))}
 	if c.prop == "C17" {
 		sh.attempts = 6
